@@ -604,11 +604,17 @@ where
         }
 
         if any_counter_zeroed {
+            // only an action scheduled by the CounterZero transition itself
+            // takes precedence over the action of the state just entered: an
+            // action still pending from an earlier event of the same call
+            // must not be mistaken for one
+            let pending = self.actions[mi].take();
             let state_changed = self.transition(mi, Event::CounterZero);
-            return (
-                self.actions[mi].is_none(),
-                state_changed == StateChange::Changed,
-            );
+            let scheduled = self.actions[mi].is_some();
+            if !scheduled {
+                self.actions[mi] = pending;
+            }
+            return (!scheduled, state_changed == StateChange::Changed);
         }
 
         // no action scheduled, and state unchanged
